@@ -123,3 +123,34 @@ def predicate_branches(fi, predicate_name):
             return out
         return stmts(held), stmts(nheld), n
     return None
+
+
+def loader_state_sources(repo, init, predicate_name):
+    """How Service.__init__ obtains self.service_meta: (read when the predicate held?, constant {"state": 0} when it did not?).
+    Both must be the *only* stores of service_meta on their side of the predicate."""
+    br = predicate_branches(init, predicate_name)
+    held, nheld = (br[0], br[1]) if br is not None else ([], [])
+    got_read = got_default = False
+
+    def is_read(v):
+        return isinstance(v, ast.Call) and (dotted(v.func) or "").endswith("read_service_meta")
+    for s in held:
+        if isinstance(s, ast.Assign) and dotted(s.targets[0]) == "self.service_meta" and is_read(s.value):
+            got_read = True
+    for s in nheld:
+        if isinstance(s, ast.Assign) and dotted(s.targets[0]) == "self.service_meta" and isinstance(s.value, ast.Dict):
+            for k, v in zip(s.value.keys, s.value.values):
+                try:
+                    if repo.const_value(init.module, k) == "state" and repo.const_value(init.module, v) == 0:
+                        got_default = True
+                except Exception:
+                    pass
+    for side, want in ((held, "read"), (nheld, "default")):
+        for s in side:
+            if isinstance(s, ast.Assign) and dotted(s.targets[0]) == "self.service_meta":
+                if (want == "read") != is_read(s.value):
+                    if want == "read":
+                        got_read = False
+                    else:
+                        got_default = False
+    return got_read, got_default
